@@ -1,4 +1,4 @@
 From Coq Require Import ExtrOcamlBasic.
 From Coq Require Import NArith List.
-From EZK Require Import Lib.Bytes Lib.Num Model.C19.
-Extraction "../ocaml/gen/c19.ml" n2b b2n N.of_nat N.to_nat parse_text print_text dir_name mtype_name proto_name print_dec parse_lifetime print_lifetime suite_of.
+From EZK Require Import Lib.Bytes Lib.Num Model.C19 Model.C19c.
+Extraction "../ocaml/gen/c19.ml" n2b b2n N.of_nat N.to_nat parse_text print_text dir_name mtype_name proto_name print_dec parse_lifetime print_lifetime suite_of parse_cand print_cand.
